@@ -34,6 +34,8 @@ def _case(draw, worlds):
                    'kl_clip': kl, 'lr': lr},
             'steps': draw(st.integers(1, 4)), 'update': 'noise', 'data_seed': draw(st.integers(0, 9999)),
             'zero_to_none': draw(st.booleans()), 'inspect': draw(st.sampled_from([False, False, True])),
+            # AMP as documented: the loss is scaled, the gradients are unscaled before step(), grad_scaler tells K-FAC the scale
+            'loss_scale': draw(st.sampled_from([None, None, None, 128.0, 1024.0])),
             'schedule': draw(st.lists(st.integers(0, 63), max_size=100))}
 
 
@@ -96,7 +98,7 @@ class C07(Prop):
     examples = {'quick': 120, 'thorough': 500}
     shards = {'quick': 4, 'thorough': 16}
     shrink_budget_s = {'quick': 30.0, 'thorough': 180.0}
-    required_labels = {'quick': ['nontrivial=True', 'kl_none=True', 'clip_active=True', 'zero_grad=True', 'multi_rank=True', 'pipe=2', 'live_hp=True', 'tied_weights=True'],
+    required_labels = {'quick': ['nontrivial=True', 'kl_none=True', 'clip_active=True', 'zero_grad=True', 'multi_rank=True', 'pipe=2', 'live_hp=True', 'tied_weights=True', 'loss_scale=True'],
                        'thorough': ['nontrivial=True', 'kl_none=True', 'clip_active=True', 'zero_grad=True', 'multi_rank=True', 'lr_zero=True']}
 
     def strategy(self, tier):
@@ -240,7 +242,7 @@ class C07(Prop):
                   'strategy': 'COMM' if case['k'] == W else 'MEM' if case['k'] == 1 else 'HYBRID',
                   'kl_kind': 'table' if isinstance(case['hp']['kl_clip'], dict) else str(case['hp']['kl_clip'] is None and 'None' or 'const'),
                   'live_hp': any(isinstance(case['hp'][k], dict) and 'live' in case['hp'][k] for k in ('kl_clip', 'lr')),
-                  'inspect': bool(case.get('inspect'))}
+                  'inspect': bool(case.get('inspect')), 'loss_scale': case.get('loss_scale') is not None}
         unclipped = copy.deepcopy(case)
         unclipped['hp']['kl_clip'] = 1e30
 
